@@ -92,6 +92,52 @@ def _estimate_tree_depth(expr: Expression, max_depth: int = 500) -> int:
     return max_found
 
 
+def _vector_degree(vector: object) -> Optional[int]:
+    """Maximum polynomial degree of the elements of a vector operand.
+
+    VectorVariable elements have degree 1; VectorExpression elements are
+    arbitrary expressions and may be non-polynomial (None).
+    """
+    if hasattr(vector, "_variables"):
+        return 1
+    if hasattr(vector, "_expressions"):
+        max_deg = 0
+        for sub_expr in vector._expressions:  # type: ignore[attr-defined]
+            d = _compute_degree_impl(sub_expr)
+            if d is None:
+                return None
+            max_deg = max(max_deg, d)
+        return max_deg
+    return None
+
+
+def _power_degree(power: float) -> Optional[int]:
+    """Degree of x ** power: only non-negative integer powers are polynomial."""
+    p = float(power)
+    if not p.is_integer() or p < 0:
+        return None
+    return int(p)
+
+
+def _vector_node_degree(node: Expression) -> Optional[int]:
+    """Degree of DotProduct / QuadraticForm / vectorized power nodes."""
+    from optyx.core.matrices import QuadraticForm
+    from optyx.core.vectors import DotProduct, VectorPowerSum, ElementwisePower
+
+    if isinstance(node, DotProduct):
+        left_deg = _vector_degree(node.left)
+        right_deg = _vector_degree(node.right)
+        if left_deg is None or right_deg is None:
+            return None
+        return left_deg + right_deg
+    if isinstance(node, QuadraticForm):
+        vec_deg = _vector_degree(node.vector)
+        return None if vec_deg is None else 2 * vec_deg
+    if isinstance(node, (VectorPowerSum, ElementwisePower)):
+        return _power_degree(node.power)
+    return None
+
+
 def _compute_degree_iterative(expr: Expression) -> Optional[int]:
     """Compute degree iteratively using explicit stack.
 
@@ -127,29 +173,19 @@ def _compute_degree_iterative(expr: Expression) -> Optional[int]:
             continue
 
         # Vector expressions - these have known degrees
-        if isinstance(node, LinearCombination):
-            result_stack.append(1)
+        if isinstance(node, (LinearCombination, VectorSum)):
+            result_stack.append(_vector_degree(node.vector))
             continue
-        if isinstance(node, VectorSum):
-            result_stack.append(1)
-            continue
-        if isinstance(node, DotProduct):
-            result_stack.append(2)
-            continue
-        if isinstance(node, QuadraticForm):
-            result_stack.append(2)
-            continue
-        if isinstance(node, VectorPowerSum):
-            # sum(x ** k) has degree k
-            result_stack.append(int(node.power))
+        if isinstance(node, (DotProduct, QuadraticForm, VectorPowerSum)):
+            result_stack.append(_vector_node_degree(node))
             continue
         if isinstance(node, VectorUnarySum):
             # sum(sin(x)), sum(exp(x)) etc. are non-polynomial
             result_stack.append(None)
             continue
         if isinstance(node, ElementwisePower):
-            # x ** k has degree k
-            result_stack.append(int(node.power))
+            # x ** k has degree k (non-negative integer k only)
+            result_stack.append(_vector_node_degree(node))
             continue
         if isinstance(node, ElementwiseUnary):
             # sin(x), exp(x) etc. are non-polynomial
@@ -293,22 +329,15 @@ def _compute_degree_impl(expr: Expression) -> Optional[int]:
                 max_deg = max(max_deg, d)
             return max_deg
         return 1  # Default for unknown vector types
-    if isinstance(expr, DotProduct):
-        # x · y could be quadratic if both are variables
-        # For now, return 2 (quadratic) as worst case
-        return 2
-    if isinstance(expr, QuadraticForm):
-        # xᵀAx is always quadratic
-        return 2
-    if isinstance(expr, VectorPowerSum):
-        # sum(x ** k) has degree k
-        return int(expr.power)
+    if isinstance(expr, (DotProduct, QuadraticForm, VectorPowerSum)):
+        # degree follows from the element degrees / the exponent
+        return _vector_node_degree(expr)
     if isinstance(expr, VectorUnarySum):
         # sum(sin(x)), sum(exp(x)) etc. are non-polynomial
         return None
     if isinstance(expr, ElementwisePower):
-        # x ** k has degree k
-        return int(expr.power)
+        # x ** k has degree k (non-negative integer k only)
+        return _vector_node_degree(expr)
     if isinstance(expr, ElementwiseUnary):
         # sin(x), exp(x) etc. are non-polynomial
         return None
